@@ -252,6 +252,47 @@ fn retarget(out: &[Vec<u8>], rng: &mut Rng, btc: bool) -> Option<Vec<u8>> {
     None
 }
 
+/// a template instance in which one `OP_xVERIFY` opcode is spelt as its two-opcode equivalent
+/// (`OP_EQUALVERIFY` = `OP_EQUAL OP_VERIFY`, …) or a plain opcode gets an `OP_VERIFY`/`OP_NOP` companion:
+/// semantically close, but a different byte string and therefore no template instance
+pub fn respelt_template(rng: &mut Rng, inner: Vec<u8>) -> Vec<u8> {
+    let b = match boundaries(&inner) {
+        Some(b) => b,
+        None => return inner,
+    };
+    let starts: Vec<usize> = b[..b.len() - 1].to_vec();
+    let mut cands: Vec<(usize, Vec<u8>)> = Vec::new();
+    for &i in &starts {
+        match inner[i] {
+            0x88 => cands.push((i, vec![0x87, 0x69])),
+            0xad => cands.push((i, vec![0xac, 0x69])),
+            0xaf => cands.push((i, vec![0xae, 0x69])),
+            0x9d => cands.push((i, vec![0x9c, 0x69])),
+            0x87 => cands.push((i, vec![0x88, 0x51])),
+            0xac => cands.push((i, vec![0xad, 0x51])),
+            0xae => cands.push((i, vec![0xaf, 0x51])),
+            0x76 => cands.push((i, vec![0x76, 0x61])),
+            0xa9 => cands.push((i, vec![0xa8, 0xa6])), // HASH160 = RIPEMD160(SHA256(x))
+            _ => {}
+        }
+    }
+    if cands.is_empty() {
+        return inner;
+    }
+    let (i, rep) = rng.pick(&cands).clone();
+    let mut v = inner[..i].to_vec();
+    v.extend(rep);
+    v.extend_from_slice(&inner[i + 1..]);
+    v
+}
+
+/// an intact template instance behind exactly one extra leading opcode
+pub fn one_opcode_prefix(rng: &mut Rng, inner: Vec<u8>) -> Vec<u8> {
+    let mut v = vec![*rng.pick(&[0x00u8, 0x51, 0x61, 0x75, 0x76, 0x6a, 0x4f, 0x60, 0x69, 0xb1])];
+    v.extend(inner);
+    v
+}
+
 /// an intact template instance with a few complete tokens in front of it and/or behind it
 /// (e.g. Namecoin name operations `OP_1 <name> OP_2DROP <P2PKH>`, `<data> OP_DROP <P2PKH>`)
 fn wrapped_template(rng: &mut Rng, inner: Vec<u8>) -> Vec<u8> {
@@ -382,6 +423,11 @@ pub fn fork_scripts(rng: &mut Rng, n: usize) -> Vec<Vec<u8>> {
         if rng.chance(1, 12) {
             let inner = template(rng.below(5), 0, rng);
             out.push(wrapped_template(rng, inner));
+            continue;
+        }
+        if rng.chance(1, 25) {
+            let inner = template(rng.below(5), *rng.pick(&[0u8, 0, 1]), rng);
+            out.push(if rng.coin() { respelt_template(rng, inner) } else { one_opcode_prefix(rng, inner) });
             continue;
         }
         if rng.chance(1, 16) {
@@ -573,6 +619,11 @@ pub fn bitcoin_scripts(rng: &mut Rng, n: usize) -> Vec<Vec<u8>> {
         if rng.chance(1, 14) {
             let inner = canon(rng);
             out.push(wrapped_template(rng, inner));
+            continue;
+        }
+        if rng.chance(1, 25) {
+            let inner = canon(rng);
+            out.push(if rng.coin() { respelt_template(rng, inner) } else { one_opcode_prefix(rng, inner) });
             continue;
         }
         if rng.chance(1, 20) {
